@@ -109,6 +109,8 @@ class SockState(object):
         self.world.fired('cut_' + kind)
         if kind == 'rst':
             self.in_rst = True
+        elif kind == 'silence':
+            pass        # the peer just stops talking, the connection stays up
         else:
             self.in_eof = True
         if self.server is not None:
@@ -624,6 +626,20 @@ def accept_variant(good, mode, step=None):
         return b''
     if mode == 'reversed':
         return good[::-1]
+    # bytes that are white space only in some 8-bit or Unicode reading
+    # (NBSP, NEL): not part of the digest, not optional white space either
+    if mode == 'nbsp_suffix':
+        return good + b'\xa0'
+    if mode == 'nbsp_prefix':
+        return b'\xa0' + good
+    if mode == 'nel_suffix':
+        return good + b'\x85'
+    if mode == 'vt_suffix':
+        return good + b'\x0b'
+    if mode == 'ff_prefix':
+        return b'\x0c' + good
+    if mode == 'us_suffix':
+        return good + b'\x1f'
     raise ValueError(mode)
 
 
